@@ -9,6 +9,7 @@ import (
 	"os/exec"
 	"path/filepath"
 	"strings"
+	"sync"
 	"time"
 )
 
@@ -28,12 +29,26 @@ type solverSpec struct {
 	args func(file string, timeoutS int) []string
 }
 
+// solverSeed: 0 on the first attempt; the sequential retry of an undecided obligation also tries other seeds
+// (a proof found with any seed is a proof; this only removes dependence on one unlucky search order)
+var solverSeed = 0
+
 var solvers = []solverSpec{
-	{"z3-new", func(f string, t int) []string { return []string{"z3-new", fmt.Sprintf("-T:%d", t), f} }},
-	{"cvc5", func(f string, t int) []string {
-		return []string{"cvc5", fmt.Sprintf("--tlimit=%d", t*1000), "--produce-models", "--mbqi", f}
+	{"z3-new", func(f string, t int) []string {
+		return []string{"z3-new", fmt.Sprintf("-T:%d", t), fmt.Sprintf("smt.random_seed=%d", solverSeed), fmt.Sprintf("sat.random_seed=%d", solverSeed), f}
 	}},
-	{"z3", func(f string, t int) []string { return []string{"z3", fmt.Sprintf("-T:%d", t), f} }},
+	{"cvc5", func(f string, t int) []string {
+		a := []string{"cvc5", fmt.Sprintf("--tlimit=%d", t*1000), "--produce-models", fmt.Sprintf("--seed=%d", solverSeed)}
+		if solverSeed%2 == 0 {
+			a = append(a, "--mbqi")
+		} else {
+			a = append(a, "--enum-inst")
+		}
+		return append(a, f)
+	}},
+	{"z3", func(f string, t int) []string {
+		return []string{"z3", fmt.Sprintf("-T:%d", t), fmt.Sprintf("smt.random_seed=%d", solverSeed), fmt.Sprintf("sat.random_seed=%d", solverSeed), f}
+	}},
 }
 
 func runSolver(ctx context.Context, sv solverSpec, file string, timeoutS int) (status, out string, secs float64) {
@@ -115,6 +130,7 @@ func Solve(o *Obligation, workDir string, timeoutS int, confirm bool) *SolveResu
 		return solveVacuity(o, workDir)
 	}
 	q := o.ctx.Query(o)
+	noteQuery(o.Name, q)
 	fname := filepath.Join(workDir, sanitizeFile(o.Name)+".smt2")
 	if err := os.WriteFile(fname, []byte(q), 0o644); err != nil {
 		return &SolveResult{Status: "error", Raw: err.Error()}
@@ -235,6 +251,33 @@ func dropQuantified(q string) string {
 }
 
 var keepQueries = false
+
+// queryDigest: order-independent digest of every query text of this run (evidence that generation is
+// deterministic: two runs on the same tree give the same digest)
+var (
+	queryDigest   uint64
+	queryDigestMu sync.Mutex
+	queryNames    = map[string]uint64{}
+)
+
+func noteQuery(name, q string) {
+	h := fnv.New64a()
+	h.Write([]byte(name))
+	h.Write([]byte{0})
+	h.Write([]byte(q))
+	v := h.Sum64()
+	if d := os.Getenv("GOCV_DUMP_QUERIES"); d != "" && strings.Contains(name, os.Getenv("GOCV_DUMP_MATCH")) {
+		os.MkdirAll(d, 0o755)
+		os.WriteFile(filepath.Join(d, sanitizeFile(name)+".smt2"), []byte(q), 0o644)
+	}
+	queryDigestMu.Lock()
+	if old, ok := queryNames[name]; ok {
+		queryDigest -= old
+	}
+	queryNames[name] = v
+	queryDigest += v
+	queryDigestMu.Unlock()
+}
 
 func sanitizeFile(s string) string {
 	r := strings.NewReplacer("/", "_", "\"", "", "[", "_", "]", "_", "*", "P", "(", "", ")", "", "$", "_", "#", "__", " ", "")
